@@ -461,7 +461,11 @@ cJSON *change_password(const struct peer *p, const cJSON *request, const char *u
 			goto out;
 		}
 
-		cJSON_ReplaceItemInObject(user, "password", cJSON_CreateString(encrypted));
+		if (cJSON_SetValuestring(password, encrypted) == NULL) {
+			response = create_error_response_from_request(p, request, INTERNAL_ERROR, "reason", "not enough memory");
+			goto out;
+		}
+
 		if (write_user_data() < 0) {
 			response = create_error_response_from_request(p, request, INTERNAL_ERROR, "reason", "Could not write password file");
 			goto out;
